@@ -425,6 +425,17 @@ def anchor_report (anchors):
             obj = obj.fget
         while hasattr (obj, '__wrapped__'):
             obj = obj.__wrapped__
+        # methods decorated with measure_time are the closure 'timer' around the real method
+        for k in range (3):
+            c0 = getattr (obj, '__code__', None)
+            if c0 is not None and c0.co_name == 'timer' and getattr (obj, '__closure__', None):
+                inner = [c.cell_contents for c in obj.__closure__ if callable (getattr (c, 'cell_contents', None))]
+                if inner:
+                    obj = inner [0]
+                    while hasattr (obj, '__wrapped__'):
+                        obj = obj.__wrapped__
+                    continue
+            break
         code = getattr (obj, '__code__', None)
         if code is None:
             out [q] = [0, 0]
